@@ -140,10 +140,10 @@ pub fn for_property(prop: &str) -> Vec<Family> {
             f("mix", "all operation kinds; closures and captures carry scope canaries and drop probes", g_mix, Q / 8, T / 8),
             f("fsync", "future_sync futures dropped at any point; their closures and futures must be gone with them", g_fsync, Q / 8, T / 8),
             f("drop", "last owner dropped under load; no operation may touch the value afterwards", gen_drop, Q / 8, T / 8),
-            Family { name: "panic", what: "an operation panics with work queued behind it; afterwards the object is used, waited for and released (also by a thread that is itself unwinding): nothing left in the dead queue may ever run or be touched", gen: gen_panic, quick_runs: Q / 16, thorough_runs: T / 16, sweep_width: 10, gen_at: Some(g_panic_sweep) },
+            Family { name: "panic", what: "an operation panics with work queued behind it; afterwards the object is used, waited for and released (also by a thread that is itself unwinding): nothing left in the dead queue may ever run or be touched", gen: gen_panic, quick_runs: Q / 16, thorough_runs: T / 16, sweep_width: 11, gen_at: Some(g_panic_sweep) },
         ],
         "C15" => vec![
-            Family { name: "panic", what: "one operation panics (the position enumerates 10 kinds of operation x runner context); afterwards every kind of call on the panicked object, ordinary programs on healthy objects, and a capacity probe", gen: gen_panic, quick_runs: Q / 2, thorough_runs: T / 2, sweep_width: 10, gen_at: Some(g_panic_sweep) },
+            Family { name: "panic", what: "one operation panics (the position enumerates 11 kinds of operation x runner context); afterwards every kind of call on the panicked object, ordinary programs on healthy objects, and a capacity probe", gen: gen_panic, quick_runs: Q / 2, thorough_runs: T / 2, sweep_width: 11, gen_at: Some(g_panic_sweep) },
         ],
         "C16" => vec![
             f("pipe-drop", "output stream dropped while the input stays open and silent", gen_pipe_drop, Q / 2, T / 2),
